@@ -269,6 +269,64 @@ func VerifH08b() {
 }
 
 // ---------------------------------------------------------------------------
+// H08f — a handler that writes Go strings into int4 columns (C08, C09). pgx
+// sends a string as it is in text format and cannot encode it in binary
+// format. Whatever the Bind's result formats: a column announced as binary is
+// never followed by a DataRow field in text; when every column is text the row
+// is delivered, otherwise the row is refused (no DataRow, one ErrorResponse).
+// ---------------------------------------------------------------------------
+func VerifH08f() {
+	nc := 1 + vChoose(vParam("COLS", 2))
+	formats := vFormats(nc)
+	w := vNewWorld(nil, 64)
+	cols := make(Columns, nc)
+	for i := range cols {
+		cols[i] = Column{Name: "n", Oid: oid.T_int4}
+	}
+	var rowErr error
+	fn := func(ctx context.Context, dw DataWriter, params []Parameter) error {
+		row := make([]any, nc)
+		for i := range row {
+			row[i] = "7"
+		}
+		if rowErr = dw.Row(row); rowErr != nil {
+			return rowErr
+		}
+		return dw.Complete("SELECT 1")
+	}
+	vAssert("set-ok", w.ses.Statements.Set(w.ctx, "", NewStatement(fn, WithColumns(cols))) == nil)
+	vAssert("bind-ok", w.ses.handleBind(w.ctx, &buffer.Reader{Msg: vBindBody(nil, nil, formats), MaxMessageSize: 64}, w.wr) == nil)
+	anyBinary := false
+	for c := 0; c < nc; c++ {
+		if vFormatFor(formats, c) == BinaryFormat {
+			anyBinary = true
+		}
+	}
+	w.conn.out = nil
+	exec := vCat(vCStr(nil), vU32(0))
+	vAssert("execute-ok", w.ses.handleExecute(w.ctx, &buffer.Reader{Msg: exec, MaxMessageSize: 64}, w.wr) == nil)
+	vAssert("wire-wellformed", vWireOK(w.conn.out))
+	rows, _ := vFrames(w.conn.out)
+	if anyBinary {
+		vAssert("string-for-a-binary-int4-column-is-refused", rowErr != nil)
+		vAssert("no-text-field-under-a-binary-announcement", vCount(vTypes(w.conn.out), 'D') == 0)
+		vAssert("refused-row-one-ErrorResponse", vTypes(w.conn.out) == "E")
+		vReach("string-value-binary-format")
+		return
+	}
+	vAssert("text-row-delivered", len(rows) == 2 && rows[0].typ == 'D' && rows[1].typ == 'C')
+	d := rows[0].body
+	vAssert("datarow-count", vBE16(d, 0) == nc)
+	k := 2
+	for c := 0; c < nc; c++ {
+		l := int(vBE32(d, k))
+		vAssert("text-encoding-used", l == 1 && d[k+4] == '7')
+		k += 4 + l
+	}
+	vReach("string-value-text-format")
+}
+
+// ---------------------------------------------------------------------------
 // H07d — re-binding a portal name replaces its result formats too (C07, C08):
 // Bind p1 with formats f1, Bind p2 with formats f2 (names symbolic, so the
 // solver decides whether the second replaces the first), then Describe and
@@ -506,7 +564,17 @@ func vSymParams(max int) (vParamSet, []byte) {
 			body = append(body, 0xFF, 0xFF, 0xFF, 0xFF)
 		} else {
 			ps.vals[i] = nondetBytes(1)
-			body = append(body, vU32(1)...)
+			if big := vParam("BIGVAL", 0); big > 0 {
+				// a large value (BIGVAL-1 filler bytes and a symbolic last byte): the
+				// message is bigger than the reader's 4 KiB allocation granule
+				v := make([]byte, big)
+				for k := range v {
+					v[k] = 'x'
+				}
+				v[big-1] = ps.vals[i][0]
+				ps.vals[i] = v
+			}
+			body = append(body, vU32(uint32(len(ps.vals[i])))...)
 			body = append(body, ps.vals[i]...)
 		}
 	}
@@ -524,9 +592,12 @@ func VerifH07p() {
 	}
 	exec := func(p []byte) []byte { return vMsgBytes('E', vCat(vCStr(p), vU32(0))) }
 	input := vCat(bind(p1, b1), bind(p2, b2), exec(p3), sync, exec(p4), sync)
-	w := vNewWorld(input, 64+4*vParam("LONGNAME", 0))
+	w := vNewWorld(input, 64+4*vParam("LONGNAME", 0)+3*vParam("BIGVAL", 0))
 	w.execMenu = 1
 	vAssert("set-ok", w.ses.Statements.Set(w.ctx, "a", w.mkStmt(1, 0)) == nil)
+	if vParam("BIGVAL", 0) > 0 && len(ps1.null) >= 1 && !ps1.null[0] && len(ps2.null) >= 1 && !ps2.null[0] {
+		vReach("two-binds-larger-than-the-allocation-granule")
+	}
 	expect := func(p []byte) (vParamSet, bool) {
 		if vEqBytes(p, p2) {
 			return ps2, true
